@@ -216,6 +216,27 @@ func ruleC17(c *Ctx) {
 			c.Check(len(probs) == 0 && len(words) == 1 && words[0] == want, ct.Name+"."+m+"/size", P.pos(ct.M[m].Pos()), m+" transfers exactly "+want, fmt.Sprintf("%s transfers %v, the type needs exactly %s", m, words, want))
 		}
 	}
+	// every bit pattern decodes: a float codec's Read fails only by passing on an error of the read it
+	// performs, never by judging the value (NaN payloads, infinities, denormals are all legal)
+	c.Rule("FL-TOTAL", "a float codec's Read rejects no value: its only error returns pass on the error of the underlying read", 3)
+	for _, ct := range bt.Codecs {
+		if !strings.HasPrefix(ct.Name, "avro.floatCodec[") && ct.Name != "avro.Float32DoubleCodec" {
+			continue
+		}
+		fn := ct.M["Read"]
+		bad := ""
+		for _, r := range returnsOf(fn) {
+			ev := errOperand(r)
+			if ev == nil || isNilConst(ev) {
+				continue
+			}
+			if isFreshError(ev) {
+				bad = "Read constructs an error of its own at " + P.pos(r.Pos()) + ": some bit patterns of the value are rejected"
+			}
+		}
+		c.Check(bad == "", ct.Name+".Read/total", P.pos(fn.Pos()), "no value-dependent failure", bad)
+	}
+	c.Rule("SZ-FLOAT", "", 0)
 	if ct := bt.byType["avro.Float32DoubleCodec"]; ct != nil {
 		// Read: float32(f) store; Write: float64(*(*float32)(p)) into the 8-byte temp
 		okR, okW := false, false
